@@ -41,6 +41,7 @@ ACTIONS = ["ASelectHandler", "AEncodePassword", "AAuthUser", "AAuthOwner", "AAut
 SPACES = {
     "quick": [("auth", "AuthQuick", "PairsQuick", "AllTried", "CanonItem"),
               ("dict", "AllDictCfg", "CanonPair", "DictTried", "CanonItem"),
+              ("size", "SizeCfgQuick", "CanonPair", "SizeTried", "AllItems"),
               ("content", "ContentQuick", "CanonPair", "OpenTried", "AllItems")],
     "thorough": [("auth", "AuthFull", "PairsQuick", "AllTried", "CanonItem"),
                  ("dict", "AllDictCfg", "CanonPair", "DictTried", "CanonItem"),
@@ -233,6 +234,9 @@ def direction_a(ck, dev):
         need = [a for a in ACTIONS if not ((name.startswith("auth") or name == "dict") and a in ("AObserveTrailer", "AGetObjCached", "ASetObjid",
                                                                     "AStreamDecode", "AFilters", "AParseObjStm"))
                 and not (name == "content" and a == "AReject")]
+        if name == "size":
+            need = ["ASelectHandler", "AEncodePassword", "AAuthUser", "AOpen", "AParseBody", "ADecipherAll", "ASetObjid",
+                    "AStreamDecode", "AFilters"]
         require_coverage(results[i], need)
     # predictions
     pred = {}        # (cfg_key, u, o) -> {tried: {item_key: record}}
